@@ -94,8 +94,23 @@ fn adv_table() -> Option<[&'static str; 5]> {
         Some("adv1") => Some(["r.txt", "r.tmp", "sub/r", "sub/r.tmp", "r"]),
         Some("adv2") => Some(["r.txt", "r.txt.tmp", "sub/r", "sub/.r.tmp", ".r.txt.tmp"]),
         Some("adv3") => Some(["r.txt", "r.txt~", "sub/r.bak", "sub/r", "r.txt.sy.tmp"]),
+        // paths that are not valid UTF-8 (here in bstr form: one char per byte), pairwise equal in their lossy form.  The invalid
+        // bytes sit in the directory part: conflict_filename gives a file whose own name is not UTF-8 the stem "file"
+        Some("adv4") => Some(["d\u{fe}/r.txt", "d\u{ff}/r.txt", "d\u{fe}/r", "d\u{ff}/r", "e\u{fe}/r.txt"]),
         _ => None,
     }
+}
+
+/// a path as a string in which every BYTE is one char (names that are not valid UTF-8 stay distinct, unlike in their lossy form)
+fn bstr(p: &Path) -> String {
+    use std::os::unix::ffi::OsStrExt;
+    p.as_os_str().as_bytes().iter().map(|b| *b as char).collect()
+}
+
+/// the inverse of bstr
+fn unb(s: &str) -> PathBuf {
+    use std::os::unix::ffi::OsStringExt;
+    PathBuf::from(std::ffi::OsString::from_vec(s.chars().map(|c| c as u32 as u8).collect()))
 }
 
 fn name_of(id: u64) -> String {
@@ -202,7 +217,7 @@ impl Namer {
                         let p = e.path();
                         if std::fs::symlink_metadata(&p).map(|m| m.is_dir()).unwrap_or(false) {
                             stack.push(p);
-                        } else if let Some(x) = parse_name(&p.strip_prefix(root).unwrap().to_string_lossy()) {
+                        } else if let Some(x) = parse_name(&bstr(p.strip_prefix(root).unwrap())) {
                             all.push(x);
                         }
                     }
@@ -252,7 +267,7 @@ fn snap(root: &Path, namer: &Namer) -> BTreeMap<u64, (u64, u64, i64)> {
                 if md.is_dir() {
                     stack.push(p);
                 } else {
-                    let rel = p.strip_prefix(root).unwrap().to_string_lossy().to_string();
+                    let rel = bstr(p.strip_prefix(root).unwrap());
                     let data = std::fs::read(&p).unwrap();
                     let content = data.first().copied().unwrap_or(0) as u64;
                     let mt = md.modified().unwrap().duration_since(UNIX_EPOCH).unwrap().as_secs() as i64 - T0 as i64;
@@ -329,7 +344,7 @@ fn main() {
                 match f[0] {
                     "e" => {
                         let root = if f[1] == "S" { &src } else { &dst };
-                        let p = root.join(name_of(f[2].parse().unwrap()));
+                        let p = root.join(unb(&name_of(f[2].parse().unwrap())));
                         match f[3] {
                             "c" => {
                                 std::fs::create_dir_all(p.parent().unwrap()).unwrap();
@@ -351,7 +366,7 @@ fn main() {
                     "w" => {
                         // a file written with a time stamp of the writer's choosing (cp -p, rsync -t, an archive)
                         let root = if f[1] == "S" { &src } else { &dst };
-                        let p = root.join(name_of(f[2].parse().unwrap()));
+                        let p = root.join(unb(&name_of(f[2].parse().unwrap())));
                         std::fs::create_dir_all(p.parent().unwrap()).unwrap();
                         let size: usize = f[3].parse().unwrap();
                         let c: u8 = f[4].parse::<u64>().unwrap() as u8;
@@ -360,7 +375,7 @@ fn main() {
                     }
                     "x" => {
                         // the state database loses the row of one side at this path
-                        let rel = PathBuf::from(name_of(f[2].parse().unwrap()));
+                        let rel = unb(&name_of(f[2].parse().unwrap()));
                         let mut sdb = BisyncStateDb::open(&src, &dst).unwrap();
                         let all = sdb.load_all().unwrap();
                         if let Some((a, b)) = all.get(&rel) {
@@ -414,7 +429,7 @@ fn main() {
                                 ),
                                 None => "-".into(),
                             };
-                            rows.insert(id_of(&namer, &p.to_string_lossy()).unwrap_or(u64::MAX), format!("S:{}|D:{}", f(a), f(b)));
+                            rows.insert(id_of(&namer, &bstr(p)).unwrap_or(u64::MAX), format!("S:{}|D:{}", f(a), f(b)));
                         }
                         out.push(format!(
                             "{} src{{{}}} dst{{{}}} db{{{}}}",
